@@ -2,55 +2,74 @@
 From Refinery Require Export Lib.Base Gen.GenC38 Model.Convert.
 Local Open Scope string_scope.
 
+Record obs_cfg := {
+  oc_v1key : string; oc_v2path : string; oc_vt : string; oc_v1text : string; oc_mdefault : string;
+  oc_choices : list string; oc_v1 : string; oc_sdefault : string; oc_ptr : bool;
+  oc_obs : string                                   (* the effective v2 value after conversion and loading *)
+}.
 Record obs_sampler := {
-  sm_name : string; sm_type : string; sm_params : list (string * Z); sm_fields : list string;   (* the v1 section *)
-  sm_obs_type : string; sm_obs_params : list (string * Z); sm_obs_fields : list string          (* what the v2 loader has *)
+  sm_name : string; sm_type : string; sm_params : list (string * Z); sm_fields : list string; sm_rules : list string;   (* the v1 section *)
+  sm_obs_type : string; sm_obs_params : list (string * Z); sm_obs_fields : list string; sm_obs_rules : list string    (* what the v2 loader has *)
 }.
 Record case := {
   c_converted : bool;                                      (* both converter runs exited 0 *)
   c_accepted : bool;                                       (* the v2 loader accepted the converted files *)
-  c_settings : list (string * string * string * string);   (* v1 key, v2 path, v1 value, effective v2 value *)
+  c_settings : list obs_cfg;
   c_samplers : list obs_sampler;
   c_nsamplers : N
 }.
 
+Definition to_in (o : obs_cfg) : setting_in :=
+  {| si_vt := oc_vt o; si_text := oc_v1text o; si_mdefault := oc_mdefault o; si_choices := oc_choices o;
+     si_v1 := oc_v1 o; si_sdefault := oc_sdefault o; si_ptr := oc_ptr o |}.
+(* the relocation table must know the pair, otherwise the converter cannot have read the setting *)
+Definition mapped (o : obs_cfg) : bool :=
+  existsb (fun e => String.eqb (fst e) (oc_v1key o) && String.eqb (snd e) (oc_v2path o)) gen_table.
+Definition model_value (o : obs_cfg) : string := if mapped o then loaded (to_in o) else oc_sdefault o.
+
 Definition v1_section (o : obs_sampler) : section :=
-  {| se_name := sm_name o; se_type := sm_type o; se_params := sm_params o; se_fields := sm_fields o |}.
+  {| se_name := sm_name o; se_type := sm_type o; se_params := sm_params o; se_fields := sm_fields o; se_rules := sm_rules o |}.
 Definition zopt_eqb (a : option Z) (b : Z) : bool := match a with Some x => Z.eqb x b | None => false end.
 
-(* the model's converted rules against the loader's view (parameters the v1 file named; defaults may be added) *)
 Definition sampler_agrees (conv : list section) (o : obs_sampler) : bool :=
   if has_sampler (v1_section o) || String.eqb (sm_name o) "__default__" then
     match find_section (sm_name o) conv with
     | None => false
     | Some s => String.eqb (se_type s) (sm_obs_type o) &&
                 forallb (fun p => zopt_eqb (slookup (fst p) (sm_obs_params o)) (snd p)) (se_params s) &&
-                list_eqb String.eqb (se_fields s) (sm_obs_fields o)
+                list_eqb String.eqb (se_fields s) (sm_obs_fields o) &&
+                list_eqb String.eqb (se_rules s) (sm_obs_rules o)
     end
   else true.
 
 Definition model_agrees (c : case) : bool :=
   if negb (c_converted c && c_accepted c) then false else
-  let v1 := map (fun t => (fst (fst (fst t)), snd (fst t))) (c_settings c) in
-  let v2 := convert_cfg gen_table v1 in
-  forallb (fun t => match slookup (snd (fst (fst t))) v2 with Some v => String.eqb v (snd t) | None => false end) (c_settings c) &&
+  forallb (fun o => String.eqb (model_value o) (oc_obs o)) (c_settings c) &&
   match c_samplers c with
   | [] => false
   | d :: ds => let conv := convert_rules (v1_section d) (map v1_section ds) in forallb (sampler_agrees conv) (c_samplers c)
   end.
 
-(* ---------- property monitor ---------- *)
+(* ---------- property monitor: the effective v2 value is the v1 value ---------- *)
+Definition setting_codes (o : obs_cfg) : codes :=
+  if String.eqb (oc_obs o) (oc_v1 o) then [] else
+  if String.eqb (oc_v1key o) "Logger" then [16%N] else
+  if zero_text (oc_v1 o) then
+    (* an explicit zero / false / empty: v2 can hold it in a pointer field, or when its own default is that value *)
+    (if oc_ptr o || String.eqb (oc_sdefault o) (oc_v1 o) then [15%N] else [])
+  else [11%N].
+
 Definition sampler_codes (o : obs_sampler) : codes :=
   if negb (has_sampler (v1_section o) || String.eqb (sm_name o) "__default__") then [] else
   let want_type := if String.eqb (sm_type o) "" then "DeterministicSampler" else sm_type o in
   if negb (String.eqb want_type (sm_obs_type o)) then [12%N] else
   app (if forallb (fun p => zopt_eqb (slookup (fst (conv_param p)) (sm_obs_params o)) (snd (conv_param p))) (sm_params o) then [] else [13%N])
-      (if list_eqb String.eqb (sm_fields o) (sm_obs_fields o) then [] else [14%N]).
+      (app (if list_eqb String.eqb (sm_fields o) (sm_obs_fields o) then [] else [14%N])
+           (if list_eqb String.eqb (sm_rules o) (sm_obs_rules o) then [] else [17%N])).
 
 Definition monitor (c : case) : codes :=
   if negb (c_converted c && c_accepted c) then [10%N] else
-  app (if forallb (fun t => String.eqb (snd (fst t)) (snd t)) (c_settings c) then [] else [11%N])
-      (flat_map sampler_codes (c_samplers c)).
+  app (flat_map setting_codes (c_settings c)) (flat_map sampler_codes (c_samplers c)).
 
 Definition check (c : case) : codes :=
   app (if model_agrees c then [] else [code_mismatch]) (monitor c).
